@@ -1,8 +1,12 @@
 CHECK = {
-    "mode": "inpkg", "pkg": "fs/ggml", "files": ["c05_test.go"],
+    "builds": [
+        {"mode": "inpkg", "pkg": "fs/ggml", "files": ["c05_test.go", "c05_fuzz_test.go"]},
+        # the same harness with fuzz coverage instrumentation, for the native fuzz target of the thorough tier
+        {"mode": "inpkg", "pkg": "fs/ggml", "files": ["c05_test.go", "c05_fuzz_test.go"], "fuzz": "FuzzC05RoundTrip"},
+    ],
     "level": "exploration",
     "engine": "ggufcodec",
-    "technique": "property-based round-trip testing (rapid, shrinking) of WriteGGUF/Decode with a both-directions oracle",
+    "technique": "property-based round-trip testing (rapid, shrinking) of WriteGGUF/Decode with a both-directions oracle; thorough tier additionally runs the same generator and oracle under Go's native coverage-guided fuzzer (rapid.MakeFuzz)",
     "level_text": "Randomised exploration of the writer's input space with an exact round-trip oracle (keys, values bitwise, "
                   "tensor multiset, bytes at decoded offsets, alignment, end offset). Inputs are a product of small finite "
                   "choices, so thousands of cases cover every value type x alignment x unaligned-size pattern many times; "
@@ -12,7 +16,9 @@ CHECK = {
     "design_ref": "DESIGN.md section 3 C05",
     "targets": [{"name": "TestC05RoundTrip",
                  "quick": {"cases": 4000, "shards": 2, "soft_s": 40},
-                 "thorough": {"cases": 200000, "shards": 16, "soft_s": 330}}],
+                 "thorough": {"cases": 200000, "shards": 12, "soft_s": 330}},
+                # native coverage-guided fuzzing, thorough tier only (cannot be pinned to VERIF_SEED; the saved input is the reproducible unit)
+                {"name": "FuzzC05RoundTrip", "build": 1, "kind": "fuzz", "thorough": {"fuzztime": "120s", "workers": 4, "hard_s": 600}}],
     "floors": {"three_tensors_unaligned": 0.15, "nondefault_alignment": 0.3},
     "rule": "rapid-generated (alignment absent or one of 1 2 4 8 16 32 64 256 24 40 96 12 7 100; every written file is decoded with Decode(-1) and again under collect limits 0 (= 1024), 5 and the sizes of its own arrays: an array of at most that many elements must decode to the same values, a longer one to its size only; KV map over every value type WriteGGUF accepts incl. empty/large strings and arrays "
             "around the 1024 collect limit, alignment in {absent,1..256}, 0-40 uniquely named tensors of every kind "
